@@ -153,6 +153,12 @@ func (s *Service) Init(ctx context.Context) error {
 // Shutdown is part of linker.Shutdowner
 func (s *Service) Shutdown() {
 	s.tmir.close()
+	// the journal controller has no Shutdown and chunk writers flush on a timer only:
+	// flush what was acknowledged before the process goes away
+	s.Journals.Visit(context.Background(), func(j journal.Journal) bool {
+		j.Sync()
+		return true
+	})
 }
 
 // Write performs Write operation to a partition defined by tags.
